@@ -979,10 +979,24 @@ func (c *Ctx) tok4(fn *ssa.Function, name string, p *pathx.Path, i int, t string
 		// connDown is the outcome of a failed connect attempt: only the function
 		// that dials deposits it (anyone else puts back the very signal taken)
 		if dk, has := c.constIntOK("connDown"); has && ck == fmt.Sprintf("connSignal:%d", dk) && equalTo(p, s.val, i) != ck {
-			dials := false
-			if env.dial != nil {
-				for _, cal := range c.staticCallees(fn) {
-					if cal == env.dial {
+			// (the function itself, a helper introduced later that it calls, or — for
+			// such a helper — the function it was split from)
+			var region func(f *ssa.Function, d int) bool
+			region = func(f *ssa.Function, d int) bool {
+				if env.dial == nil || d > 4 {
+					return false
+				}
+				for _, cal := range c.staticCallees(f) {
+					if cal == env.dial || (c.isNewHelper(cal) && region(cal, d+1)) {
+						return true
+					}
+				}
+				return false
+			}
+			dials := region(fn, 0)
+			if !dials && c.isNewHelper(fn) {
+				for _, g := range c.callers()[fn] {
+					if region(g, 0) {
 						dials = true
 					}
 				}
